@@ -147,7 +147,10 @@ def main(argv=None):
              for g in table["graphs"]}
     cmds = sorted(table["formula"], key=lambda c: " ".join(c["argv"]))
     if ck.quick:
-        cmds = ck.rng.sample(cmds, 40)
+        # a sample, plus (always) a few command lines whose graph comes from a file given by its full path
+        filegraphs = {g["name"] for g in table["graphs"] if any(t.startswith("%file:") for t in g["spec"])}
+        withfile = [c for c in cmds if any(tok.startswith("@") and tok[1:] in filegraphs for tok in c["argv"])]
+        cmds = ck.rng.sample(cmds, 40) + withfile[:: max(1, len(withfile) // 6)][:6]
     for c in cmds:
         args = [x for tok in c["argv"] for x in (gspec[tok[1:]] if tok.startswith("@") else [tok])]
         for tool in ("cnfgen", "pbgen"):
